@@ -675,6 +675,72 @@ theorem aim_oneway_exceeds (rho rounds : ℝ) (n : ℕ) (hrho : 0 < rho) (hround
   rw [e, lt_div_iff₀ hrounds]
   nlinarith [mul_lt_mul_of_pos_right hfit hrho]
 
+/-- the noise scale is positive and, while the loop runs, budget is left -/
+def AimPos (rho : ℝ) (s : AimState) : Prop := 0 < s.sigma ∧ (s.terminated = false → s.rho_used < rho)
+
+theorem aimRoundParams_sigma_pos (rho : ℝ) (s : AimState) (h : AimPos rho s) (ht : s.terminated = false) :
+    0 < (aimRoundParams rho s).1 := by
+  simp only [aimRoundParams]
+  split
+  · have hrem : aim_remaining rho s.rho_used = rho - s.rho_used := by simp only [aim_remaining] <;> pgm_arith
+    have hpos : 0 < rho - s.rho_used := by have := h.2 ht; linarith
+    rw [hrem]
+    generalize rho - s.rho_used = r at hpos
+    unfold aim_sigma_last; positivity
+  · exact h.1
+
+theorem aimPos_step (rho : ℝ) (s : AimState) (b : Bool) (h : AimPos rho s) : AimPos rho (aimStep rho s b) := by
+  by_cases ht : s.terminated = true
+  · have : aimStep rho s b = s := by simp [aimStep, ht]
+    rw [this]; exact h
+  · have ht' : s.terminated = false := by simpa using ht
+    have hσ := aimRoundParams_sigma_pos rho s h ht'
+    have hsig : (aimStep rho s b).sigma = if b then aim_sigma_anneal (aimRoundParams rho s).1 else (aimRoundParams rho s).1 := by
+      simp [aimStep, aimRoundParams, ht']
+    refine ⟨?_, ?_⟩
+    · rw [hsig]
+      cases b
+      · simpa using hσ
+      · simp only [if_true]
+        have e : aim_sigma_anneal (aimRoundParams rho s).1 = (aimRoundParams rho s).1 / 2 := by
+          simp only [aim_sigma_anneal] <;> pgm_arith
+        rw [e]; positivity
+    · intro hT
+      have hg : ¬ aim_last_round_guard rho s.rho_used s.sigma s.epsilon := by
+        intro hg
+        simp [aimStep, ht', hg] at hT
+      have hp : aimRoundParams rho s = (s.sigma, s.epsilon) := by simp [aimRoundParams, hg]
+      rw [aimStep_rho_used rho s b ht', aim_ledger_matches, hp]
+      have hg' := (not_congr (aim_guard_iff rho s.rho_used s.sigma s.epsilon)).mp hg
+      rw [not_lt] at hg'
+      have hc : 0 < aimRoundCost s.sigma s.epsilon := by
+        rw [aimRoundCost_eq]; have := h.1; positivity
+      simp only
+      linarith
+
+theorem aimPos_init (rho rounds : ℝ) (n : ℕ) (hrho : 0 < rho) (hrounds : 0 < rounds) (hfit : 0.9 * (n : ℝ) < rounds) :
+    AimPos rho (aimInit rho rounds n) := by
+  refine ⟨by simp only [aimInit]; unfold aim_sigma0; positivity, fun _ => ?_⟩
+  rw [aim_init_matches]
+  have hG : ∀ σ, gaussCost 1 (aim_noise_scale_init σ) = 1 / (2 * σ ^ 2) := by
+    intro σ
+    simp only [gaussCost, aim_noise_scale_init] <;> pgm_arith
+  rw [hG, aim_sigma0_sq rounds rho hrho hrounds]
+  have e : (n : ℝ) * (1 / (2 * (rounds / (1.8 * rho)))) = 0.9 * n * rho / rounds := by
+    pgm_arith
+  rw [e, div_lt_iff₀ hrounds]
+  nlinarith [mul_lt_mul_of_pos_right hfit hrho]
+
+/-- **every round AIM executes samples at a positive scale** (so the charge `Δ²/(2σ²)` is a genuine finite charge), for
+every annealing history, under the strict `0.9·#oneway < rounds`; at equality the first round's remaining budget is 0 and
+the real code divides by zero -/
+theorem aim_round_sigma_pos (rho rounds : ℝ) (n : ℕ) (outcomes : List Bool) (hrho : 0 < rho) (hrounds : 0 < rounds)
+    (hfit : 0.9 * (n : ℝ) < rounds)
+    (ht : (outcomes.foldl (aimStep rho) (aimInit rho rounds n)).terminated = false) :
+    0 < (aimRoundParams rho (outcomes.foldl (aimStep rho) (aimInit rho rounds n))).1 :=
+  aimRoundParams_sigma_pos rho _
+    (foldl_inv (AimPos rho) (aimStep rho) outcomes _ (aimPos_init rho rounds n hrho hrounds hfit) (fun s b h => aimPos_step rho s b h)) ht
+
 /-! ## 6. Adaptive Grid -/
 
 section ada
@@ -889,5 +955,67 @@ theorem ada_total_cost_le_rho_split (rho f1 f2 f3 : ℝ) (g : GraphOps A DS ℝ)
   rw [e1, e2, e3] at h ⊢
   linarith
 end ada
+
+/-! ## 7. the hypotheses are satisfiable (each end-to-end theorem applied to a concrete run) -/
+
+section examples
+
+/-- library stub: union-find that never connects, `r = #attributes`, models of size 0, `downward_closure = id` -/
+noncomputable def exG : GraphOps ℕ Unit ℝ := ⟨(), fun _ _ _ => (), fun _ _ _ => false, fun T => T.1.length, fun _ => 0, id⟩
+
+/-- records are lists of attribute values (binary attributes); the cell of a record in the marginal over `c` -/
+def exCell (c : List ℕ) (r : List ℕ) : ℕ := (c.map (fun a => r.getD a 0)).foldl (fun acc v => 2 * acc + v) 0
+def exSize (c : List ℕ) : ℕ := 2 ^ c.length
+def exXest (c : List ℕ) : List ℝ := List.replicate (2 ^ c.length) 1
+
+/-- MST on two binary attributes: `D = [(0,1)]`, `D' = D + (1,1)`, weights `(3/5, 4/5)` -/
+example : total (mstEvents 0 0 1 exG [[0], [1]] [3/5, 4/5] [3/5, 4/5] exCell exSize exCell exSize [0, 1] exXest (fun _ => 4) []
+    (fun _ => 0) [[0, 1]] [[1, 1], [0, 1]]) ≤ 1 :=
+  mst_total_cost_le_rho 0 0 1 exG [[0], [1]] [3/5, 4/5] [3/5, 4/5] exCell exSize exCell exSize [0, 1] exXest (fun _ => 4) []
+    (fun _ => 0) [[0, 1]] [[1, 1], [0, 1]] (by norm_num) ⟨[1, 1], Or.inl (List.Perm.refl _)⟩ (by norm_num) (by norm_num)
+    (by intro w hw; simp at hw; rcases hw with rfl | rfl <;> norm_num)
+    (by intro w hw; simp at hw; rcases hw with rfl | rfl <;> norm_num)
+    (by intro c; simp [exXest, exSize])
+
+/-- MWEM+PGM, one round, bounded adjacency: the record `(0,1)` replaced by `(1,1)` -/
+example : total ([(⟨exXest, fun _ => 4, [], [[0, 1]], [0, 1]⟩ : MwemRound (List ℕ))].flatMap
+    (mwemGaussRound 0 0 1 (1/2) ((1 : ℕ) : ℝ) true exCell exSize [[0, 1]] [[1, 1]])) ≤ 1 :=
+  mwem_total_cost_le_budget_gauss 0 0 1 (1/2) 1 true exCell exSize [[0, 1]] [[1, 1]] _ (by norm_num) (by norm_num) (by norm_num)
+    (by norm_num) rfl (by unfold Nbr; rw [if_pos rfl]; exact ⟨[0, 1], [1, 1], [], List.Perm.refl _, List.Perm.refl _⟩)
+    (by intro rd hrd cl; simp at hrd; subst hrd; simp [exXest, exSize])
+
+example : totalPure ([(⟨exXest, fun _ => 4, [], [[0, 1]], [0, 1]⟩ : MwemRound (List ℕ))].flatMap
+    (mwemLaplaceRound 0 0 1 (1/2) ((1 : ℕ) : ℝ) false exCell exSize [[0, 1]] [[1, 1], [0, 1]])) ≤ 1 :=
+  (mwem_total_cost_le_budget_laplace 0 0 1 (1/2) 1 false exCell exSize [[0, 1]] [[1, 1], [0, 1]] _ (by norm_num) (by norm_num)
+    (by norm_num) (by norm_num) rfl (by unfold Nbr; rw [if_neg (by simp)]; exact ⟨[1, 1], Or.inl (List.Perm.refl _)⟩)
+    (by intro rd hrd cl; simp at hrd; subst hrd; simp [exXest, exSize])).1
+
+/-- AIM (cliques named by numbers; binary marginals): two one-way marginals, `rounds = 2`, one round on the candidate `0` of
+weight 1 (free: inside the downward closure of the model's cliques) with the annealing test firing -/
+example : total (aimEvents 0 0 1 2 exG [(0, 1)] [0, 1] (fun (c : ℕ) (r : List ℕ) => r.getD c 0) (fun _ => 2) [[0, 1]] [[1, 1], [0, 1]]
+    [⟨true, fun _ => [1, 1], fun _ => 2, [0], 1, 0⟩]) ≤ 1 :=
+  aim_total_cost_le_rho 0 0 1 2 exG [(0, 1)] [0, 1] (fun (c : ℕ) (r : List ℕ) => r.getD c 0) (fun _ => 2) [[0, 1]] [[1, 1], [0, 1]]
+    [⟨true, fun _ => [1, 1], fun _ => 2, [0], 1, 0⟩]
+    (by norm_num) (by norm_num) (by norm_num) ⟨[1, 1], Or.inl (List.Perm.refl _)⟩
+    (by
+      intro rd hrd
+      simp at hrd; subst hrd
+      refine ⟨⟨0, ?_, ?_⟩, fun cl => by simp⟩
+      · rw [gen_aim_filter_candidates, dictKeys_writeAll_nil, mem_keyOrder]
+        simp [dictKeys, exG]
+      · rw [gen_aim_filter_candidates]
+        simp [dictKeys, exG, writeAll, dictSet, dictGet])
+
+/-- Adaptive Grid: the 2-level history of `C05B` (`exA`, `exB`, `exAB`), two attributes, no targets, default split;
+`np.inf` is represented by `-1`, which no square root equals -/
+example : total (adaEvents (-1) 0 (ada_rho_step_default 1) (ada_rho_step2_default 1) (ada_rho_step3_default 1) exG 2 [[0], [1]]
+    (fun cl => if cl = [0] then exA else if cl = [1] then exB else exAB) exCell exSize [0, 1] [] exXest (fun _ => 4) []
+    (fun _ => 0) [[0, 1]] [[1, 1], [0, 1]]) ≤ 1 :=
+  ada_total_cost_le_rho (-1) 0 1 exG 2 [[0], [1]] _ [exA, exB, exAB] exCell exSize [0, 1] [] exXest (fun _ => 4) []
+    (fun _ => 0) [[0, 1]] [[1, 1], [0, 1]] (by norm_num) ⟨[1, 1], Or.inl (List.Perm.refl _)⟩ (by simp) ex_history
+    (by intro cl; split_ifs <;> simp)
+    (by unfold ada_select_eps; exact ne_of_gt (lt_of_lt_of_le (by norm_num) (Real.sqrt_nonneg _)))
+    (by intro c; simp [exXest, exSize])
+end examples
 
 end PGM.C05E
